@@ -79,7 +79,8 @@ fn run(ctx: &mut Ctx) {
             let want = senc::avp(&a).expect("in domain");
             ctx.rep.case(desc.as_bytes(), want.len() > 6);
             ctx.rep.bucket(&format!("len.{}", len_bucket(want.len())));
-            for wk in [Wk::Vec, Wk::Recording] {
+            let base = *ctx.rng.pick(&[65_536usize, 70_000, 0x1_0000_0000, 1 << 40]);
+            for wk in [Wk::Vec, Wk::Recording, Wk::Offset(base)] {
                 match exec::encode_avp(&ca, wk) {
                     exec::EncOut::Ok(e) => compare(ctx, "avp", &format!("attr{}", a.attr), &e.bytes, &want, &desc, |at| field_at_avp(at).to_string()),
                     exec::EncOut::Panic(p) => ctx.violate(format!("C06:avp:encode-panic:{}", p.class()), format!("encoding {:?} panicked: {}", a, p.message), J::obj(vec![("value", J::s(desc.clone()))])),
@@ -99,9 +100,12 @@ fn run(ctx: &mut Ctx) {
             let want = senc::message(&m).expect("in domain");
             ctx.rep.case(&crate::monitor::hll::hash_bytes(6, &want).to_le_bytes(), want.len() > 12);
             let desc = format!("{:?}", c);
-            match exec::encode_msg(&cm, Wk::Vec) {
-                exec::EncOut::Ok(e) => compare(ctx, "control", "msg", &e.bytes, &want, &desc, |at| if at < 2 { "flags".into() } else if at < 4 { "length".into() } else if at < 12 { "header".into() } else { "avps".into() }),
-                exec::EncOut::Panic(p) => ctx.violate(format!("C06:control:encode-panic:{}", p.class()), format!("encoding panicked: {}", p.message), J::obj(vec![("value", J::s(desc.clone()))])),
+            let base = *ctx.rng.pick(&[65_536usize, 70_000, 0x1_0000_0000, 1 << 40]);
+            for wk in [Wk::Vec, Wk::Offset(base)] {
+                match exec::encode_msg(&cm, wk) {
+                    exec::EncOut::Ok(e) => compare(ctx, "control", "msg", &e.bytes, &want, &desc, |at| if at < 2 { "flags".into() } else if at < 4 { "length".into() } else if at < 12 { "header".into() } else { "avps".into() }),
+                    exec::EncOut::Panic(p) => ctx.violate(format!("C06:control:encode-panic:{}", p.class()), format!("encoding panicked: {}", p.message), J::obj(vec![("value", J::s(desc.clone()))])),
+                }
             }
         }
         "data" => {
